@@ -82,7 +82,17 @@ def check(run):
                 break
     pairs = [(a, b) for a in rot for b in rot]
     rng.shuffle(pairs)
-    pairs = pairs[:60 if quick else 400]
+    pairs = pairs[:40 if quick else 400]
+    # systematically: every special rotor on either side of a generic one (a rotor snapped to the pole, or any other
+    # per-rotor error, shows up in the product law with an unrelated partner)
+    generic = [r for r in rot if r[0] == "generic"][:2]
+    extra_np = [("near-pole-1e-9", (1.0, 0.6e-9, 0.8e-9, 0.0)), ("near-pole-1e-12", (math.cos(0.4), 1e-12, 0.0, math.sin(0.4))),
+                ("near-antipole-1e-9", (1e-9, 0.6, 0.8, 0.0)), ("near-pole-1e-6", (1.0, 0.0, 1e-6, 0.0)), ("near-pole-1e-3", (1.0, 1e-3, 0.0, 0.0))]
+    extra_np = [(l, tuple(x / math.sqrt(sum(y * y for y in R)) for x in R)) for l, R in extra_np]
+    for sp in [r for r in rot if r[0] != "generic"] + extra_np:
+        for g in generic[:1 if quick else 2]:
+            pairs.append((sp, g))
+            pairs.append((g, sp))
     # mutually inverse, commuting (same axis) pairs always included
     pairs += [(r, (r[0], (r[1][0], -r[1][1], -r[1][2], -r[1][3]))) for r in rot[:6]]
     pairs += [(("z-rot", (math.cos(0.3), 0, 0, math.sin(0.3))), ("z-rot2", (math.cos(1.1), 0, 0, math.sin(1.1))))]
